@@ -54,10 +54,10 @@ def expected(rec, x):
     return [b * ratio ** (e[0] / e[1]) for e in rec['exps']], ratio
 
 
-def compare(rec, gen, x):
+def compare(rec, gen, x, it=None):
     try:
         with vlib.time_limit(30):
-            got = list(itertools.islice(gen(x, rec['m'], rec['n'], rec['o']), 5001))      # never trust the sequence to end
+            got = list(itertools.islice(it if it is not None else gen(x, rec['m'], rec['n'], rec['o']), 5001))      # never trust the sequence to end
     except Exception as ex:
         return 'generator raised %r' % (ex,)
     if len(got) > 5000:
@@ -113,6 +113,23 @@ def work(group):
             bad.append((r, 'x=%r: %s' % (np.asarray(XS[xi]).tolist(), why)))
             if len(bad) > 3:
                 break
+    # two sequences requested from the same generator object BEFORE either is consumed (zip(gen(x1), gen(x2)), a list of
+    # iterators consumed later): each is the documented sequence of ITS OWN call
+    pairs = calls[:24]
+    for (r1, x1), (r2, x2) in zip(pairs[0::2], pairs[1::2]):
+        if bad:
+            break
+        try:
+            it1 = gen(XS[x1], r1['m'], r1['n'], r1['o'])
+            it2 = gen(XS[x2], r2['m'], r2['n'], r2['o'])
+        except Exception as ex:
+            bad.append((r1, 'generator raised %r' % (ex,)))
+            break
+        for r, xi, it in ((r2, x2, it2), (r1, x1, it1)):
+            why = compare(r, gen, XS[xi], it=it)
+            n += 1
+            if why:
+                bad.append((r, 'x=%r, iterator created before another call of the same generator object was consumed: %s' % (np.asarray(XS[xi]).tolist(), why)))
     return bad, n
 
 
